@@ -171,3 +171,26 @@ pub mod c01 {
         }
     }
 }
+
+// C13 O8 controls: a word count obtained by truncating division used as the bound of a word counter
+pub mod c13 {
+    pub struct WordIter { pub words: usize, pub cur: usize }
+    pub fn bad_words(len: usize) -> WordIter { WordIter { words: (len >> 6).min(4), cur: 0 } }
+    pub fn good_words(len: usize) -> WordIter { WordIter { words: ((len + 63) >> 6).min(4), cur: 0 } }
+    impl WordIter {
+        pub fn step(&mut self) -> Option<usize> {
+            self.cur += 1;
+            if self.cur >= self.words { return None; }
+            Some(self.cur << 6)
+        }
+    }
+    pub struct CeilIter { pub words: usize, pub cur: usize }
+    pub fn ceil_iter(len: usize) -> CeilIter { CeilIter { words: ((len + 63) >> 6).min(4), cur: 0 } }
+    impl CeilIter {
+        pub fn step(&mut self) -> Option<usize> {
+            self.cur += 1;
+            if self.cur >= self.words { return None; }
+            Some(self.cur << 6)
+        }
+    }
+}
